@@ -47,6 +47,28 @@ SNIPPETS = [
 BROKEN = ['def f(:\n', 'x = (1,\n', 'class\n', 'import os\nos.path.(\n', 'if x\n    pass\n']
 
 
+# (source, message the caller must get): exceptions that do not derive from Exception, and one that cannot be printed
+BASE_RAISES = [('raise KeyboardInterrupt("kb")', 'kb'), ('raise GeneratorExit()', ''), ('raise BaseException("base")', 'base'),
+               ('class Stop(BaseException):\n    pass\nraise Stop("own")', 'own'),
+               ('class E(Exception):\n    def __str__(self):\n        raise RuntimeError("no")\nraise E()', '<exception str() failed>')]
+
+# function bodies that keep state in their own module namespace: a fresh evaluation always yields the same value
+STATEFUL = ['global calls\ntry:\n    calls += 1\nexcept NameError:\n    calls = 1\nreturn calls',
+            'seen = globals().setdefault("seen", [])\nseen.append(len(seen))\nreturn seen',
+            'g = globals()\ng["n"] = g.get("n", 0) + 1\nreturn [g["n"], sorted(k for k in g if not k.startswith("__"))]']
+
+
+def fresh_eval(src):
+    """value of `src` run as the body of a function in a brand-new namespace (built through ast, not through Server.eval)"""
+    import ast
+    fn = ast.parse('def boo():\n    pass\nresult = boo()')
+    fn.body[0].body = ast.parse(src).body
+    ast.fix_missing_locations(fn)
+    ns = {}
+    exec(compile(fn, '<string>', 'exec'), ns)
+    return ns['result']
+
+
 def norm(x):
     """what a value looks like after a msgpack round trip: tuples become lists"""
     if isinstance(x, (list, tuple)):
@@ -60,11 +82,14 @@ def norm_key(k):
     return tuple(norm_key(i) for i in k) if isinstance(k, (list, tuple)) else k
 
 
+REPLY_TIMEOUT = 150        # seconds; the slowest request of any tier takes < 20 s on this machine
+
+
 class Unserialisable(object):
     pass
 
 
-def make_machine(sh, found, steps_budget):
+def make_machine(sh, found, steps_budget, server_env=None):
     import hypothesis
     from hypothesis import strategies as st
     from hypothesis.stateful import RuleBasedStateMachine, rule, precondition, initialize
@@ -77,7 +102,8 @@ def make_machine(sh, found, steps_budget):
             super().__init__()
             self.root = tempfile.mkdtemp(prefix='c15_')
             c04.write_mods(self.root)
-            self.env = Environment(env={'SUPP_LOG_LEVEL': '100', 'PYTHONPATH': core.REPO})
+            self.env = Environment(env=dict(server_env or {'SUPP_LOG_LEVEL': '100'}, PYTHONPATH=core.REPO))
+            self.reply_timeout = REPLY_TIMEOUT
             self.mirror = supp_server.Server(None)
             self.ops = []
             found['cur'] = self.ops
@@ -88,6 +114,33 @@ def make_machine(sh, found, steps_budget):
             self.token = 0
 
         # -- helpers
+        def call(self, name, *args, **kwargs):
+            """one client call under a watchdog: "every request is answered" - a server that stays alive but never replies
+            (e.g. blocked on a log pipe nobody reads) is a violation, not a hang of the harness"""
+            import threading
+            box = {}
+
+            def work():
+                try:
+                    box['r'] = self.env._call(name, *args, **kwargs)
+                except BaseException as e:      # noqa: handed to the caller below
+                    box['e'] = e
+            t = threading.Thread(target=work, daemon=True)
+            t.start()
+            t.join(self.reply_timeout)
+            if t.is_alive():
+                proc = getattr(self.env, 'proc', None)
+                state = 'alive' if (proc is not None and proc.poll() is None) else 'dead'
+                try:
+                    proc.kill()
+                except Exception:
+                    pass
+                t.join(10)
+                self.fail('no-reply:%s' % name, 'no reply within %d s to %s (request %d of the sequence); server process %s' % (self.reply_timeout, name, len(self.ops), state))
+            if 'e' in box:
+                raise box['e']
+            return box['r']
+
         def both(self, name, *args, **kwargs):
             """send through the client and evaluate on the mirror; compare"""
             self.ops.append((name, _brief(args)))
@@ -103,8 +156,10 @@ def make_machine(sh, found, steps_budget):
                 except BaseException:
                     want, want_ok = ('SerializeError', 'Serialize error'), False
             try:
-                got = self.env._call(name, *args, **kwargs)
+                got = self.call(name, *args, **kwargs)
                 got_ok = True
+            except AssertionError:
+                raise
             except Exception as e:
                 got, got_ok = str(e), False
             if want_ok != got_ok:
@@ -131,7 +186,9 @@ def make_machine(sh, found, steps_budget):
             from supp.project import Project
             self.ops.append(('configure', _brief(cfg)))
             try:
-                got = self.env.configure(cfg)
+                got = self.call('configure', cfg)
+            except AssertionError:
+                raise
             except Exception as e:
                 self.fail('outcome-mismatch:configure', 'configure raised %r on the client' % (e,))
             self.mirror.project = Project(list(cfg['sources']), dyn_modules=cfg.get('dyn_modules'))
@@ -212,23 +269,51 @@ def make_machine(sh, found, steps_budget):
         def eval_raises(self, msg):
             self.both('eval', 'raise ValueError(%r)' % msg)
 
-        @rule(code=st.sampled_from([3, 0, 'bye']))
-        def eval_exits(self, code):
-            """code run for a request calls sys.exit(): a request that raises like any other (the expected outcome is written down
-            here, the mirror cannot run it without ending the harness)"""
-            self.ops.append(('eval-exit', repr(code)))
-            want = str(code)
+        def expect_raise(self, tag, src, want):
+            """a request whose code raises something the mirror cannot run without ending the harness: the expected message is
+            written down here"""
+            self.ops.append((tag, _brief(src)))
             try:
-                got = self.env._call('eval', 'import sys\nsys.exit(%r)' % (code,))
-                self.fail('outcome-mismatch:eval-exit', 'client got a result %r for a request that raised SystemExit' % (got,))
+                got = self.call('eval', src)
+                self.fail('outcome-mismatch:%s' % tag, 'client got a result %r for a request that raised on the server' % (got,))
             except AssertionError:
                 raise
             except Exception as e:
                 if str(e) != want:
-                    self.fail('error-message-differs:eval-exit', 'client raised %r, server-side message %r' % (str(e), want))
+                    self.fail('error-message-differs:%s' % tag, 'client raised %r, server-side message %r' % (str(e), want))
             self.faults += 1
             if self.env.proc.poll() is not None:
-                self.fail('server-died:eval-exit', 'child exit status %r after sys.exit() in a request' % (self.env.proc.poll(),))
+                self.fail('server-died:%s' % tag, 'child exit status %r after %s' % (self.env.proc.poll(), tag))
+
+        @rule(code=st.sampled_from([3, 0, 'bye']))
+        def eval_exits(self, code):
+            """code run for a request calls sys.exit(): a request that raises like any other"""
+            self.expect_raise('eval-exit', 'import sys\nsys.exit(%r)' % (code,), str(code))
+
+        @rule(k=st.integers(0, len(BASE_RAISES) - 1))
+        def eval_raises_base(self, k):
+            """exceptions outside the Exception hierarchy, and one whose own __str__ fails"""
+            src, want = BASE_RAISES[k]
+            self.expect_raise('eval-raises-base', src, want)
+
+        @rule(k=st.integers(0, len(STATEFUL) - 1), times=st.integers(1, 3))
+        def eval_same_source_again(self, k, times):
+            """the same source text sent repeatedly: every evaluation starts from a fresh namespace (the expected value is what a
+            fresh function body yields in the harness, not what the server module under test computes)"""
+            src = STATEFUL[k]
+            for _ in range(times):
+                self.ops.append(('eval-again', _brief(src)))
+                want = fresh_eval(src)
+                try:
+                    got = self.call('eval', src)
+                except AssertionError:
+                    raise
+                except Exception as e:
+                    self.fail('outcome-mismatch:eval-again', 'client raised %r, a fresh evaluation yields %r' % (e, want))
+                if got != norm(want):
+                    self.fail('reply-differs:eval-again', 'client %r, a fresh evaluation of the same function body yields %r' % (_brief(got), _brief(norm(want))))
+                if self.faults:
+                    self.ok_after_fault += 1
 
         @rule()
         def eval_unserialisable(self):
@@ -359,15 +444,58 @@ def w_slow(job):
     return sh.result()
 
 
+def w_logging(job):
+    """the server with its DEFAULT logging (the traceback of every failing request goes to its stderr): many failing requests,
+    and failing requests with very large messages, are answered like any other and so is everything after them"""
+    n_fail, big = job
+    sh = Shard()
+    found = {}
+    Machine = make_machine(sh, found, 50, server_env={'SUPP_VERIF_DEFAULT_LOGGING': '1'})
+    devnull = os.open(os.devnull, os.O_WRONLY)
+    saved = os.dup(2)
+    m = Machine()
+    m.reply_timeout = 60
+    try:
+        try:
+            os.dup2(devnull, 2)         # the child inherits this stderr; the harness's own is restored right after the launch
+            try:
+                m.configure_first()
+            finally:
+                os.dup2(saved, 2)
+            m.eval_token()
+            for i in range(n_fail):
+                m.eval_raises('boom')
+                if i % 3 == 0:
+                    m.unknown_method('nosuch')
+                if i % 10 == 0:
+                    m.eval_token()
+            if big:
+                m.both('eval', 'raise ValueError("x" * %d)' % big)
+                m.eval_token()
+                m.both('assist', SNIPPETS[0][0], SNIPPETS[0][1], os.path.join(m.root, 'buffer.py'))
+            sh.count('default-logging-sequences')
+        except AssertionError:
+            sig, ops, detail = found['f']
+            sh.violation(sig + ':default-logging', {'ops': ops[-6:], 'logging': [n_fail, big]}, detail)
+    finally:
+        os.close(saved)
+        os.close(devnull)
+        m.teardown()
+    return sh.result()
+
+
 def w_dispatch(job):
+    if job[0] == 'logging':
+        return w_logging(job[1:])
     return w_slow(job[1:]) if job[0] == 'slow' else w_machine(job[1:])
 
 
 def run(run):
     slow = [(6, 0)] if run.quick else [(6, 0), (12, 0), (1, 120000)]
     jobs = [('slow',) + j for j in slow]
+    jobs += [('logging',) + j for j in ([(200, 0), (3, 200000)] if run.quick else [(200, 0), (3, 200000), (1500, 0), (10, 2 << 20)])]
     jobs += [('machine', i, core.derive_seed(run.seed, 'c15', i), run.pick(25, 150), run.pick(12, 40)) for i in range(run.pick(8, 16))]
-    run.pmap(w_dispatch, jobs, procs=run.pick(9, 16))
+    run.pmap(w_dispatch, jobs, procs=run.pick(11, 16))
 
 
 def replay(case):
@@ -377,6 +505,9 @@ def replay(case):
     Machine = make_machine(sh, found, 50)
     if case.get('slow'):
         r = w_slow(tuple(case['slow']))
+        return [{'signature': v['signature'], 'case': case, 'detail': v['detail']} for v in r['violations']]
+    if case.get('logging'):
+        r = w_logging(tuple(case['logging']))
         return [{'signature': v['signature'], 'case': case, 'detail': v['detail']} for v in r['violations']]
     m = Machine()
     out = []
@@ -400,6 +531,13 @@ def replay(case):
                 elif name == 'eval-exit':
                     m.eval_exits(3)
                     m.eval_token()
+                elif name == 'eval-raises-base':
+                    for k in range(len(BASE_RAISES)):
+                        m.eval_raises_base(k)
+                        m.eval_token()
+                elif name == 'eval-again':
+                    for k in range(len(STATEFUL)):
+                        m.eval_same_source_again(k, 3)
                 elif name == 'configure':
                     m.configure(False, ['m2'])
                     for i, (src, pos) in enumerate(SNIPPETS):
